@@ -1,11 +1,332 @@
 """C01 - discovered DataFrame constraints are satisfied by the data they came from."""
-from .. import ief, triage
+import ast
+
+from .. import ief, triage, tables, fde, reglang
+from ..flow import GuardMap
+from ..model import AnalysisError, norm
+from .c06 import kinds_and_methods, PCV
+from .common import dep_closure, dep_closure_at, names_in
 
 ROOTS = ['discover_df', 'verify_df', 'detect_df', 'DatasetConstraints.to_json', 'DatasetConstraints.load']
+
+# trusted base: the grammar of datetime.__str__ / date.__str__ (Python documentation)
+W_DATE = r'\d{4}-\d{2}-\d{2}'
+W_NAIVE = r'\d{4}-\d{2}-\d{2} \d{2}:\d{2}:\d{2}(\.\d{6})?'
+W_AWARE = r'\d{4}-\d{2}-\d{2} \d{2}:\d{2}:\d{2}(\.\d{6})?[+-]\d{2}:\d{2}(:\d{2}(\.\d{6})?)?'
+ALPHABET = '0-/ T:.+x'
+EQ_OK = ('>= BOUND', '<= BOUND', 'call:fuzzy_greater_than', 'call:fuzzy_less_than')
+
+
+def getmap(p):
+    """get_X -> (cache key, calc_Y) from the get_cached_value calls."""
+    c = p.cls('BaseConstraintVerifier')
+    out = {}
+    for name, f in c.methods.items():
+        if not name.startswith('get_'):
+            continue
+        for n in ast.walk(f.node):
+            if isinstance(n, ast.Call) and isinstance(n.func, ast.Attribute) and n.func.attr == 'get_cached_value' \
+                    and len(n.args) == 3 and isinstance(n.args[0], ast.Constant) and isinstance(n.args[2], ast.Attribute):
+                out[name] = (n.args[0].value, n.args[2].attr)
+    return out
+
+
+def calcs(closure, gm):
+    out = set()
+    for x in closure:
+        if x.startswith('self.calc_'):
+            out.add(x[5:])
+        elif x.startswith('self.get_') and x[5:] in gm:
+            out.add(gm[x[5:]][1])
+    return out
+
+
+def ctor_calls(f, cname):
+    return [n for n in ast.walk(f.node) if isinstance(n, ast.Call) and getattr(n.func, 'id', None) == cname]
 
 
 def check(run):
     p = run.prog
     roots = [p.fn(r) for r in ROOTS]
-    seen = ief.run_ief(run, 'C01', roots, triage=triage.IEF)
+    ief.run_ief(run, 'C01', roots, triage=triage.IEF)
     run.floor('C01-IEF', run.units['ief_functions_checked'], 150)
+    km = kinds_and_methods(p)
+    gm = getmap(p)
+    if len(gm) < 11:
+        raise AnalysisError('only %d get_* statistics found (11 on the pinned tree)' % len(gm))
+    shared(run, p, gm)
+    close(run, p, km, gm)
+    cache(run, p, km)
+    datelang(run, p)
+
+
+def shared(run, p, gm):
+    run.rule('C01-SHARED', 'both sides use one implementation: each cached statistic has its own cache key and is computed by the calc_ '
+                           'function of the same name; discovery and verification classify column types through the same function; '
+                           'rex constraints are verified under the regex flags rexpy inferred them with')
+    keys = {}
+    for g, (k, c) in sorted(gm.items()):
+        keys.setdefault(k, []).append(g)
+        run.ob('C01-SHARED', 'cache:%s' % g, c == 'calc_' + g[4:], '%s caches %s under key %r' % (g, c, k),
+               fn=p.method('BaseConstraintVerifier', g), nontrivial=False)
+    for k, gs in sorted(keys.items()):
+        if len(gs) > 1:
+            run.ob('C01-SHARED', 'cache-key:%s' % k, False, 'cache key %r is shared by %s: one statistic would be served as another' % (k, gs),
+                   fn=p.method('BaseConstraintVerifier', gs[0]))
+    run.ob('C01-SHARED', 'cache-keys-distinct', all(len(v) == 1 for v in keys.values()), '%d statistics, %d distinct cache keys' % (len(gm), len(keys)),
+           fn=p.method('BaseConstraintVerifier', 'get_cached_value'))
+    # type classifier
+    pc = p.cls('PandasConstraintCalculator')
+    ct = pc.methods.get('calc_tdda_type')
+    if ct is None:
+        raise AnalysisError('PandasConstraintCalculator.calc_tdda_type vanished')
+    called = {getattr(n.func, 'id', None) for n in ast.walk(ct.node) if isinstance(n, ast.Call)}
+    disc = p.method('BaseConstraintDiscoverer', 'discover_field_constraints')
+    dcalls = {n.func.attr for n in ast.walk(disc.node) if isinstance(n, ast.Call) and isinstance(n.func, ast.Attribute)}
+    run.ob('C01-SHARED', 'type-classifier', 'pandas_tdda_type' in called and 'calc_tdda_type' in dcalls and gm.get('get_tdda_type', (0, 0))[1] == 'calc_tdda_type',
+           'discovery calls calc_tdda_type, verification get_tdda_type -> calc_tdda_type -> pandas_tdda_type', fn=ct)
+    # regex flags
+    try:
+        a = p.const('tdda.constraints.pd.constraints', 'RE_FLAGS')
+        b = p.const('tdda.rexpy.rexpy', 'RE_FLAGS')
+    except AnalysisError as e:
+        raise AnalysisError('RE_FLAGS constants: %s' % e)
+    run.ob('C01-SHARED', 'rex-flags-value', a == b, 'constraints RE_FLAGS=%d, rexpy RE_FLAGS=%d' % (a, b),
+           rel='tdda/constraints/pd/constraints.py', line=p.mod('tdda.constraints.pd.constraints').consts['RE_FLAGS'].lineno)
+    crc = pc.methods.get('calc_rex_constraint')
+    comp = [n for n in ast.walk(crc.node) if isinstance(n, ast.Call) and norm(n.func) == 're.compile']
+    ok = bool(comp) and all(len(n.args) >= 2 and norm(n.args[1]) == 'RE_FLAGS' for n in comp)
+    run.ob('C01-SHARED', 'rex-flags-used', ok, 'calc_rex_constraint compiles with %s' % [norm(n) for n in comp], fn=crc)
+    run.floor('C01-SHARED', len(gm) + 4, 15)
+
+
+def close(run, p, km, gm):
+    run.rule('C01-CLOSE', 'for each kind discovery can emit, the emitted value comes from the statistic the verifier reads and the '
+                          'verifier\'s comparator for the emitted (default) arm holds at equality; the sign class chosen for each of the six '
+                          'orderings of (min, max, 0) satisfies the sign verifier\'s row for that class')
+    disc = p.method('BaseConstraintDiscoverer', 'discover_field_constraints')
+    dn = disc.node
+
+    def emitted(cname):
+        cs = ctor_calls(disc, cname)
+        if not cs:
+            raise AnalysisError('discovery no longer constructs %s' % cname)
+        return cs
+
+    # min / max
+    for kind, cname in (('min', 'MinConstraint'), ('max', 'MaxConstraint')):
+        for c in emitted(cname):
+            ver = km[kind][0]
+            no_prec = len(c.args) == 1 and not c.keywords
+            dclo = calcs(dep_closure_at(dn, c.args[0]), gm)
+            t = {lab: (comp, s) for lab, marks, comp, s in tables.table(ver.node, tables.pick_result())}
+            dflt = t.get(('else',))
+            vclo = set()
+            if dflt and isinstance(dflt[1].value, ast.Call):
+                vclo = calcs(dep_closure(ver.node, names_in(dflt[1].value.args[0])), gm)
+            ok = no_prec and dflt is not None and dflt[0] in EQ_OK and dclo == vclo == {'calc_' + kind}
+            run.ob('C01-CLOSE', 'kind:%s' % kind, ok,
+                   '%s: discovered from %s with default precision; verifier default arm `%s` on %s' % (kind, sorted(dclo), dflt[0] if dflt else None, sorted(vclo)),
+                   fn=disc, node=c)
+    # lengths
+    for kind, cname, agg in (('min_length', 'MinLengthConstraint', 'min'), ('max_length', 'MaxLengthConstraint', 'max')):
+        for c in emitted(cname):
+            ver = km[kind][0]
+            clo = dep_closure_at(dn, c.args[0])
+            t = tables.table(ver.node, tables.pick_result())
+            ok = agg in clo and 'len' in clo and 'self.calc_unique_values' in clo and len(t) == 1 and t[0][2] in EQ_OK
+            run.ob('C01-CLOSE', 'kind:%s' % kind, ok,
+                   '%s: discovered as %s(len(v)) over the distinct values; verifier `%s`' % (kind, agg, t[0][2] if t else None), fn=disc, node=c)
+    # nulls
+    for c in emitted('MaxNullsConstraint'):
+        ver = km['max_nulls'][0]
+        dclo = calcs(dep_closure(dn, names_in(c.args[0])), gm)
+        t = tables.table(ver.node, tables.pick_result())
+        vclo = calcs(dep_closure(ver.node, names_in(t[0][3].value.left)), gm) if t and isinstance(t[0][3].value, ast.Compare) else set()
+        ok = dclo == vclo == {'calc_null_count'} and t[0][2] in EQ_OK
+        run.ob('C01-CLOSE', 'kind:max_nulls', ok, 'max_nulls: discovered from %s; verifier `%s` on %s' % (sorted(dclo), t[0][2] if t else None, sorted(vclo)),
+               fn=disc, node=c)
+    # duplicates
+    gmap = GuardMap(dn)
+    for c in emitted('NoDuplicatesConstraint'):
+        ch = gmap.chain(c) or ()
+        eqs = []
+        for g in ch:
+            if g.kind == 'if' and g.pol:
+                for x in ast.walk(g.test):
+                    if isinstance(x, ast.Compare) and isinstance(x.ops[0], ast.Eq) and len(x.ops) == 1:
+                        eqs.append(calcs(dep_closure(dn, names_in(x)), gm))
+        ver = km['no_duplicates'][0]
+        t = tables.table(ver.node, tables.pick_result())
+        vclo = calcs(dep_closure(ver.node, names_in(t[0][3].value)), gm) if t else set()
+        ok = vclo == {'calc_nunique', 'calc_non_null_count'} and any(e == vclo for e in eqs)
+        run.ob('C01-CLOSE', 'kind:no_duplicates', ok,
+               'no_duplicates: emitted under an equality of %s; verifier tests equality of %s' % ([sorted(e) for e in eqs], sorted(vclo)), fn=disc, node=c)
+    # allowed values
+    for c in emitted('AllowedValuesConstraint'):
+        dclo = calcs(dep_closure(dn, names_in(c.args[0])), gm)
+        ver = km['allowed_values'][0]
+        vclo = set()
+        for n in ast.walk(ver.node):
+            if isinstance(n, ast.Assign) and any(isinstance(t, ast.Name) and t.id == 'violations' for t in n.targets):
+                vclo = calcs(dep_closure(ver.node, names_in(n.value)), gm)
+        ok = dclo == {'calc_unique_values'} and 'calc_unique_values' in vclo
+        run.ob('C01-CLOSE', 'kind:allowed_values', ok, 'allowed_values: discovered from %s; violations computed from %s' % (sorted(dclo), sorted(vclo)), fn=disc, node=c)
+    # type
+    for c in emitted('TypeConstraint'):
+        dclo = calcs(dep_closure(dn, names_in(c.args[0])), gm)
+        ver = km['type'][0]
+        vclo = set()
+        for n in ast.walk(ver.node):
+            if isinstance(n, ast.Assign) and any(isinstance(t, ast.Name) and t.id == 'actual_type' for t in n.targets):
+                vclo = calcs(dep_closure(ver.node, names_in(n.value)), gm)
+        ok = dclo == vclo == {'calc_tdda_type'}
+        run.ob('C01-CLOSE', 'kind:type', ok, 'type: discovered from %s, verified against %s' % (sorted(dclo), sorted(vclo)), fn=disc, node=c)
+    # rex: generated by find_rexes, verified by calc_rex_constraint through re.match under the shared flags (SHARED)
+    emitted('RexConstraint')
+    # sign
+    sign_close(run, p, km, disc)
+    run.floor('C01-CLOSE', sum(1 for o in run.obs if o.rule == 'C01-CLOSE'), 14)
+
+
+def sign_chain(disc):
+    """The if-chain of discovery that picks the sign class, and the names of (min, max) in it."""
+    best = None
+    for n in ast.walk(disc.node):
+        if isinstance(n, ast.If):
+            lits = {c.args[0].value for c in ast.walk(n) if isinstance(c, ast.Call) and getattr(c.func, 'id', None) == 'SignConstraint'
+                    and c.args and isinstance(c.args[0], ast.Constant)}
+            inner = {x.id for x in ast.walk(n.test) if isinstance(x, ast.Name)}
+            if 'zero' in lits and isinstance(n.test, ast.Compare) and len(inner) == 2:
+                if best is None or len(ast.unparse(n)) < len(ast.unparse(best)):
+                    best = n
+    if best is None:
+        raise AnalysisError('discovery: sign decision chain not found')
+    return best
+
+
+def sign_leaf(stmts, env):
+    for s in stmts:
+        for c in ast.walk(s):
+            if isinstance(c, ast.Call) and getattr(c.func, 'id', None) == 'SignConstraint' and c.args:
+                a = c.args[0]
+                if isinstance(a, ast.Constant):
+                    return a.value
+                if isinstance(a, ast.Name):
+                    # sign = 'positive' if m > 0 else 'non-negative'
+                    for t in stmts:
+                        if isinstance(t, ast.Assign) and isinstance(t.targets[0], ast.Name) and t.targets[0].id == a.id \
+                                and isinstance(t.value, ast.IfExp):
+                            v = t.value
+                            return (v.body if fde.eval_sign(v.test, env) else v.orelse).value
+    return None
+
+
+def sign_close(run, p, km, disc):
+    chain = sign_chain(disc)
+    ver = km['sign'][0]
+    vt = {lab[0]: s for lab, marks, comp, s in tables.table(ver.node, tables.pick_result()) if lab != ('incompat',)}
+    lo, hi = 'm', 'M'
+    names = [x.id for x in ast.walk(chain.test) if isinstance(x, ast.Name)]
+    if len(names) >= 2:
+        lo, hi = names[0], names[1]
+    STR = {(-1, -1): 'min<max<0 or min=max<0', (-1, 0): 'min<0=max', (-1, 1): 'min<0<max', (0, 0): 'min=max=0', (0, 1): '0=min<max', (1, 1): '0<min<=max'}
+    for st in fde.SIGN_STATES:
+        env = {lo: st[0], hi: st[1], '#order': (lo, hi)}
+        try:
+            cls = fde.eval_chain(chain, env, sign_leaf)
+        except fde.Unsupported as e:
+            raise AnalysisError('sign discovery chain not interpretable: %s' % e)
+        if cls is None:
+            run.ob('C01-CLOSE', 'sign:%s' % (st,), st == (-1, 1), 'ordering %s: no sign class emitted' % STR[st], fn=disc, node=chain)
+            continue
+        row = vt.get(cls)
+        ok = False
+        if row is not None:
+            venv = {'m': st[0], 'M': st[1], '#order': ('m', 'M')}
+            try:
+                ok = fde.eval_sign(row.value, venv) is True
+            except fde.Unsupported as e:
+                raise AnalysisError('sign verifier row %s not interpretable: %s' % (cls, e))
+        run.ob('C01-CLOSE', 'sign:%s' % (st,), ok, 'ordering %s: discovery emits %r; verifier row `%s` is %s there'
+               % (STR[st], cls, norm(row.value) if row is not None else None, ok), fn=disc, node=chain)
+
+
+def cache(run, p, km):
+    run.rule('C01-CACHE', 'no store into the frame being verified (self.df) is reachable from any registered verifier, so a memoised '
+                          'statistic cannot go stale while verdicts are still being computed')
+    pcv = p.cls(PCV)
+    roots = [(v, pcv.qn) for v, d in km.values()]
+    seen = p.reach(roots)
+    bad = []
+    nf = 0
+    for (qn, ctx) in seen:
+        f = p.funcs[qn]
+        nf += 1
+        for x in p.own_nodes(f):
+            if isinstance(x, ast.Assign):
+                for t in x.targets:
+                    if (isinstance(t, ast.Subscript) and norm(t.value) == 'self.df') or norm(t) == 'self.df':
+                        bad.append((f, x))
+            if isinstance(x, ast.Call) and isinstance(x.func, ast.Attribute) and norm(x.func.value) == 'self.df' and \
+                    any(k.arg == 'inplace' and isinstance(k.value, ast.Constant) and k.value.value for k in x.keywords):
+                bad.append((f, x))
+            if isinstance(x, ast.Assign) and any(norm(t) in ('self.cache', ) for t in x.targets) and f.name != '__init__':
+                bad.append((f, x))
+    run.ob('C01-CACHE', 'verifier-closure', not bad, '%d functions reachable from the %d verifiers; stores into self.df / resets of the cache: %d'
+           % (nf, len(km), len(bad)), fn=km['min'][0])
+    for f, x in bad:
+        run.ob('C01-CACHE', '%s::%s::%s' % (f.rel, f.short, norm(x)[:50]), False, 'verifier closure writes the frame or resets the cache: %s' % norm(x)[:80], fn=f, node=x)
+    run.floor('C01-CACHE', nf, 25)
+
+
+def date_reader(p):
+    f = p.fn('tdda.constraints.base.get_date')
+    base = p.mod('tdda.constraints.base')
+    pairs = []
+    for n in ast.walk(f.node):
+        if isinstance(n, ast.For) and isinstance(n.iter, ast.Tuple):
+            for el in n.iter.elts:
+                if isinstance(el, ast.Tuple) and len(el.elts) == 2 and isinstance(el.elts[0], ast.Name):
+                    pairs.append((el.elts[0].id, el.elts[1].value if isinstance(el.elts[1], ast.Constant) else None))
+    if not pairs:
+        raise AnalysisError('get_date no longer iterates over (regex, group count) pairs')
+    out = []
+    for name, L in pairs:
+        e = base.consts.get(name)
+        if not (isinstance(e, ast.Call) and norm(e.func) == 're.compile' and e.args):
+            raise AnalysisError('date regex %s is not a re.compile constant' % name)
+        out.append((name, p.fold(base, e.args[0]), L))
+    return f, out
+
+
+def datelang(run, p):
+    run.rule('C01-DATELANG', 'every string the writer can emit for a date bound (str(date), str(datetime), trusted grammar) is accepted by '
+                             'one of the regexes get_date tries; each regex has exactly the number of groups get_date reads; the digit '
+                             'groups are converted with exact integer arithmetic only')
+    f, readers = date_reader(p)
+    pats = [pat for name, pat, L in readers]
+    for wname, w in (('date', W_DATE), ('naive datetime', W_NAIVE), ('timezone-aware datetime', W_AWARE)):
+        try:
+            cex = reglang.not_included(w, pats, ALPHABET)
+        except reglang.Unsupported as e:
+            raise AnalysisError('date regex not interpretable: %s' % e)
+        run.ob('C01-DATELANG', 'tdda/constraints/base.py::get_date::writer:%s' % wname, cex is None,
+               'str(%s) %s' % (wname, 'is always re-read as a date' if cex is None else
+                               'can be %r, which no reader regex (%s) accepts: the bound comes back as a string' % (cex, ', '.join(n for n, _, _ in readers))),
+               fn=f)
+    for name, pat, L in readers:
+        g = reglang.groups(pat)
+        run.ob('C01-DATELANG', 'tdda/constraints/base.py::get_date::groups:%s' % name, g == L,
+               '%s has %d groups, get_date reads %s' % (name, g, L), fn=f, nontrivial=False)
+    inexact = [n for n in ast.walk(f.node) if (isinstance(n, ast.Call) and getattr(n.func, 'id', None) in ('float', 'round'))
+               or (isinstance(n, ast.BinOp) and isinstance(n.op, (ast.Div, ast.Mult, ast.Pow)))]
+    run.ob('C01-DATELANG', 'tdda/constraints/base.py::get_date::exact', not inexact,
+           'date components are converted with int() only' if not inexact else 'inexact arithmetic on a date component: %s' % norm(inexact[0]), fn=f,
+           node=inexact[0] if inexact else None)
+    # writer: date-typed values are stringified with str()
+    w = p.method('Constraint', 'to_dict_value')
+    src = ast.unparse(w.node)
+    ok = 'str(self.value)' in src and 'datetime.datetime' in src and 'datetime.date' in src
+    run.ob('C01-DATELANG', 'tdda/constraints/base.py::Constraint.to_dict_value::writer', ok, 'date values are rendered with str()', fn=w, nontrivial=False)
+    run.floor('C01-DATELANG', 3 + len(readers), 6)
